@@ -58,7 +58,7 @@ class StopShrink(BaseException):
 
 
 class CaseTimeout(Exception):
-    """The code under test did not return within the per-case watchdog (non-termination)."""
+    """The code under test used more CPU time than the per-case watchdog allows (non-termination)."""
 
 
 CASE_TIMEOUT_S = int(os.environ.get("VERIF_CASE_TIMEOUT_S", "150"))
@@ -180,7 +180,7 @@ class Ctx:
             # A case normally costs milliseconds; CASE_TIMEOUT_S (150 s) without returning is
             # reported as non-termination of the code under test.  Not shrunk (each attempt
             # would cost the full timeout).
-            v = Violation("hang", f"no result within {CASE_TIMEOUT_S}s (non-termination)", case)
+            v = Violation("hang", f"no result within {CASE_TIMEOUT_S}s of CPU time (non-termination)", case)
             if v.sig in self.known_sigs:
                 self.excluded_known[v.sig] += 1
                 return
@@ -204,12 +204,14 @@ class Ctx:
     def timed(self, fn, *args):
         import signal
 
-        signal.signal(signal.SIGALRM, _alarm)
-        signal.setitimer(signal.ITIMER_REAL, CASE_TIMEOUT_S)
+        # CPU time of this process (ITIMER_PROF), not wall-clock time: a loaded machine can starve a worker
+        # for minutes, which must never look like non-termination; a real endless loop burns CPU
+        signal.signal(signal.SIGPROF, _alarm)
+        signal.setitimer(signal.ITIMER_PROF, CASE_TIMEOUT_S)
         try:
             return fn(*args)
         finally:
-            signal.setitimer(signal.ITIMER_REAL, 0)
+            signal.setitimer(signal.ITIMER_PROF, 0)
             _reset_tracebacklimit()
 
     def _record_failure(self, v: Violation, case: Any):
